@@ -181,12 +181,14 @@ Definition trivial_orders (w h : N) (img_bottom_up : list N) : list order :=
 
 (* one segment of a scan line of one plane *)
 Inductive pseg :=
-| PRaw (raw : list N) (run : N)   (* control = |raw| << 4 | run, raw values, then run repeats of the last value *)
+| PRaw (raw : list N) (run : N)   (* control = |raw| << 4 | run, raw values, then run repeats of the last value;
+                                     run = 1, 2 are the escapes below; an empty segment is not conformant *)
 | PLong (run : N).                (* 16..47 repeats of the last value: control = (run-16) << 4 | 1  or (run-32) << 4 | 2 *)
 
 Definition pseg_ok (s : pseg) : bool :=
   match s with
-  | PRaw raw r => (nlen raw <=? 15) && (r <=? 15) && negb (r =? 1) && negb (r =? 2) && forallb (fun b => b <? 256) raw
+  | PRaw raw r => (nlen raw <=? 15) && (r <=? 15) && negb (r =? 1) && negb (r =? 2) && (0 <? nlen raw + r) &&
+                  forallb (fun b => b <? 256) raw
   | PLong r => (16 <=? r) && (r <=? 47)
   end.
 
@@ -248,4 +250,4 @@ Definition planar_image (a r g b : list (list pseg)) : list N :=
 (* rows top-down of u16 pixels -> wire bytes (bottom-up, little endian) *)
 Definition raw16_wire (rows : list (list N)) : bytes := flat_map le16s (rev rows).
 (* rows top-down of BGRA byte rows -> wire bytes (bottom-up) *)
-Definition raw32_wire (rows : list bytes) : bytes := concat (rev rows).
+Definition raw32_wire (rows : list (list N)) : list N := concat (rev rows).
